@@ -16,6 +16,13 @@ parameter — and for the arithmetic dunders `__mul__/__truediv__/__add__/__sub_
            writeIn   the same through a name that still aliases the input after a guard re-bound the subject
            delegate  the name is passed on together with `inplace=inplace` (callee must itself be in the table)
            branch    an explicit `if` on `inplace`
+           retIn     `return <name>` where the name still holds the *input object* (no copy was bound to it) on a path
+                     on which `inplace` is not known to be true: a non-inplace call must hand back a FRESH object
+                     (`no_leak` / `inplace_identity` need result ≠ input), e.g. an early "nothing to do" `return x`
+                     placed before `if not inplace: x = x.copy()`
+           lostDelegate  a nested call `f(x, …, inplace=inplace)` whose RESULT IS DISCARDED (expression statement, or
+                     bound to `_`) on a path where `inplace` is not known to be true: with inplace=False the callee
+                     copies again and its effect is lost, with inplace=True it is applied — the two end states differ
 
 The trace of the *worst* path (first path whose trace fails `okTrace`, else the longest) is emitted per function as
 `Navis.Gen.InplaceSpec.inplaceTraces : List (String × List Ev)`, and `inplaceSpec : List (String × Bool)` is defined
@@ -111,7 +118,7 @@ class State:
 
     def key(self):
         t = self.trace
-        bad = not no_write_before_guard(t) or 'writeIn' in t
+        bad = not no_write_before_guard(t) or 'writeIn' in t or 'retIn' in t or 'lostDelegate' in t
         return (self.ip, self.tainted, self.owned, self.guarded, bad, 'delegate' in t, 'branch' in t, 'guard' in t, self.excl)
 
     def ev(self, e):
@@ -133,7 +140,8 @@ def no_write_before_guard(t):
 
 
 def ok_trace(t):
-    return no_write_before_guard(t) and 'writeIn' not in t and any(e in t for e in ('guard', 'delegate', 'branch'))
+    return no_write_before_guard(t) and 'writeIn' not in t and 'retIn' not in t and 'lostDelegate' not in t \
+        and any(e in t for e in ('guard', 'delegate', 'branch'))
 
 
 def dedupe(states):
@@ -231,8 +239,9 @@ class Walker:
             return st.ev('writeIn' if st.guarded else 'write')
         return st
 
-    def do_calls(self, st, node):
-        """effects of all calls inside an expression / statement (not descending into nested defs)"""
+    def do_calls(self, st, node, discarded=None):
+        """effects of all calls inside an expression / statement (not descending into nested defs);
+        `discarded` = the call node whose result the statement throws away"""
         for c in self.iter_calls(node):
             eff, names = self.call_effect(c)
             if eff == 'write':
@@ -243,7 +252,10 @@ class Walker:
             elif eff == 'delegate':
                 if any(n in st.tainted or n in st.owned for n in names) and st.ip is not True:
                     known = callee_name(c) in self.defaults
-                    st = st.ev('delegate') if known else self.emit_write(st, [n for n in names if n in st.tainted or n in st.owned][0])
+                    if known and c is discarded:
+                        st = st.ev('lostDelegate')
+                    else:
+                        st = st.ev('delegate') if known else self.emit_write(st, [n for n in names if n in st.tainted or n in st.owned][0])
         return st
 
     def iter_calls(self, node):
@@ -325,11 +337,14 @@ class Walker:
                             s2 = s2.ev('branch')
                         out += self.assign([s2], targets, arm)
                 return dedupe(out)
+        throwaway = all(isinstance(tg, ast.Name) and tg.id == '_' for tg in targets)
         for st in states:
             kind, src = self.value_kind(st, value)
             # calls inside the value (the copy call itself has no effect)
             if kind != 'copy':
-                st = self.do_calls(st, value)
+                st = self.do_calls(st, value, discarded=value if throwaway else None)
+            if throwaway and kind == 'delegated':
+                kind = 'fresh'          # the callee's result is dropped: the name `_` holds nothing we track
             for tg in targets:
                 if isinstance(tg, (ast.Tuple, ast.List)):
                     for e in tg.elts:
@@ -363,6 +378,10 @@ class Walker:
             for st in states:
                 if s.value is not None:
                     st = self.do_calls(st, s.value)
+                    # `return x` where x still IS the input object, on a path where inplace may be False
+                    if isinstance(s.value, ast.Name) and s.value.id in st.tainted and s.value.id not in st.owned \
+                            and st.ip is not True:
+                        st = st.ev('retIn')
                 self.finished.append(st)
             return []
         if isinstance(s, ast.Raise):
@@ -395,7 +414,7 @@ class Walker:
                 out.append(st)
             return dedupe(out)
         if isinstance(s, ast.Expr):
-            return dedupe([self.do_calls(st, s.value) for st in states])
+            return dedupe([self.do_calls(st, s.value, discarded=s.value) for st in states])
         if isinstance(s, ast.If):
             v = flag_test(s.test, self.flag, self.polarity)
             out = []
@@ -515,7 +534,7 @@ def is_overload(fn):
     return False
 
 
-def collect(repo: Path):
+def collect(repo: Path, trees=None):
     base = repo / 'navis'
     found = []
     for p in sorted(base.rglob('*.py')):
@@ -526,6 +545,8 @@ def collect(repo: Path):
             tree = ast.parse(p.read_text())
         except SyntaxError as e:
             raise ValueError(f'cannot parse {rel}: {e}')
+        if trees is not None:
+            trees[rel] = tree
         for qn, fn in iter_functions(tree):
             if is_overload(fn):
                 continue
@@ -548,8 +569,35 @@ def collect(repo: Path):
     return found
 
 
+def is_private(short):
+    return short.startswith('_') and not (short.startswith('__') and short.endswith('__'))
+
+
+def flag_forwarding_sites(trees, names):
+    """For the private helpers `names` (bare names): how does the rest of the package call them?
+    name -> sorted list of 'rel:line:<true|false|omitted|forward>'.  `forward` = the caller passes anything but a
+    boolean literal for `inplace` (in practice its own `inplace` flag) — only then does the helper's non-inplace
+    behaviour become the behaviour of a caller that must return a fresh object."""
+    out = {n: [] for n in names}
+    for rel, tree in trees.items():
+        for node in ast.walk(tree):
+            if isinstance(node, ast.Call) and callee_name(node) in out:
+                kw = {k.arg: k.value for k in node.keywords if k.arg}
+                if 'inplace' not in kw:
+                    kind = 'omitted'
+                elif isinstance(kw['inplace'], ast.Constant) and isinstance(kw['inplace'].value, bool):
+                    kind = 'true' if kw['inplace'].value else 'false'
+                else:
+                    kind = 'forward'
+                out[callee_name(node)].append(f'{rel}:{node.lineno}:{kind}')
+    return {k: sorted(v) for k, v in out.items()}
+
+
 def analyse(repo: Path):
-    found = collect(repo)
+    trees = {}
+    found = collect(repo, trees)
+    privates = sorted({f['qn'].split('.')[-1] for f in found if is_private(f['qn'].split('.')[-1])})
+    sites = flag_forwarding_sites(trees, privates)
     defaults = {}
     for f in found:
         short = f['qn'].split('.')[-1]
@@ -563,16 +611,27 @@ def analyse(repo: Path):
         finals = [s for s in w.run()]
         cand = [s for s in finals if s.ip is not True] or finals
         def violates(t):
-            return (not no_write_before_guard(t)) or 'writeIn' in t
+            return (not no_write_before_guard(t)) or 'writeIn' in t or 'retIn' in t or 'lostDelegate' in t
         # worst path first: a violating one; else one that shows how the flag is honoured; else the longest
         traces = sorted({s.trace for s in cand}, key=lambda t: (not violates(t), not ok_trace(t), -len(t), t))
         trace = list(traces[0]) if traces else []
+        short = f['qn'].split('.')[-1]
+        exempt = None
+        if 'retIn' in trace and is_private(short) and sites.get(short) \
+                and not any(c.endswith(':forward') for c in sites[short]):
+            # a private helper that no caller hands its own `inplace` flag to (every call site passes a literal, on an
+            # object the caller owns): "a non-inplace call returns a fresh object" is not a public behaviour of it.
+            # The requirement comes back the moment a call site forwards the flag.
+            exempt = sites[short]
+            ok_paths = [t for t in traces if 'retIn' not in t]
+            trace = list(ok_paths[0]) if ok_paths else [e for e in trace if e != 'retIn']
         rows.append(dict(key=f['key'], line=f['line'], trace=trace, ok=ok_trace(trace), subject=f['subject'],
-                         flag=f['flag'], n_paths=len(finals)))
+                         flag=f['flag'], n_paths=len(finals), retin_exempt=exempt))
     return rows
 
 
-LEAN_EV = {'guard': '.guard', 'write': '.write', 'writeIn': '.writeIn', 'delegate': '.delegate', 'branch': '.branch'}
+LEAN_EV = {'guard': '.guard', 'write': '.write', 'writeIn': '.writeIn', 'delegate': '.delegate', 'branch': '.branch',
+           'retIn': '.retIn', 'lostDelegate': '.lostDelegate'}
 
 
 def generate(repo: Path):
@@ -605,6 +664,7 @@ def generate(repo: Path):
     ]
     meta = {'functions': len(rows), 'not_ok': [r['key'] for r in rows if not r['ok']],
             'skipped_dirs': list(SKIP_DIRS),
+            'private_helpers_never_given_the_callers_flag': {r['key']: r['retin_exempt'] for r in rows if r.get('retin_exempt')},
             'traces': {r['key']: ' '.join(r['trace']) for r in rows}}
     return 'InplaceSpec.lean', '\n'.join(lines), meta
 
